@@ -88,6 +88,13 @@ def dispatch (f : String) (j : Json) : Option Json :=
       let some col := getNat j "end_col" | return Json.mkObj [("err", "bad end_col")]
       let sep := match (getStr j "sep").map String.toList with | some [c] => c | _ => ','
       return Json.bool (Pfst.TrailSep.hasTrailingSep sep src.toList ln col)
+  | "C05.arg_check" => some <| Id.run do
+      let some a := (get j "shape").bind asNats | return Json.mkObj [("err", "bad shape")]
+      match a with
+      | [po, ar, va, ko, kd, kw, de] =>
+        let s : ArgsShape := ⟨po, ar, va != 0, ko, kd, kw != 0, de⟩
+        return Json.bool (if (getBool j "star").getD false then argStarOk s else argNormalOk s)
+      | _ => return Json.mkObj [("err", "bad shape")]
   | "C05.span" => some <| Id.run do
       -- text of a span inside the wrapper vs inside the source (both sides of `wrap_positions`)
       let some pre := getStr j "pre" | return Json.mkObj [("err", "bad pre")]
